@@ -345,6 +345,7 @@ type c13IndexSpec struct {
 	// ticker-driven chunk has been read from the local key-value store, and that chunk's write is
 	// acknowledged late: the scan inserts keys while a chunk upload is in flight
 	straddle bool
+	parallel int // > 0: WithPurgeParallel (fewer scanning workers than repositories)
 }
 
 func c13Ints(xs []int) string {
@@ -391,6 +392,10 @@ func (h *c13Hist) index(sp c13IndexSpec) bool {
 	if sp.tick {
 		blob.GetDelay = 300 * time.Microsecond
 		opts = append(opts, core.VerifPurgeUploaderInterval(time.Millisecond))
+	}
+	if sp.parallel > 0 {
+		blob.GetDelay = 300 * time.Microsecond // scans last long enough to overlap
+		opts = append(opts, core.WithPurgeParallel(sp.parallel))
 	}
 	if sp.tick && sp.straddle {
 		chunkRead := make(chan struct{})
@@ -740,6 +745,30 @@ func c13Case(c *ctx, faultBudget *int, forceTick bool) error {
 	return nil
 }
 
+// c13FewWorkers: more repositories than scanning workers — every repository is scanned all the same.
+func c13FewWorkers(c *ctx, kind string, parallel int) error {
+	c.w.Case("kind=%s nctx=1 nrepo=3 directed=few-workers-%d", kind, parallel)
+	defer c.w.End()
+	h, err := c13NewHist(c, kind, 1, 3)
+	if err != nil {
+		return err
+	}
+	defer h.close()
+	h.pool = [][]byte{
+		tr.GenBytes(401, 2*c13Leaf+17), tr.GenBytes(402, 40), tr.GenBytes(403, c13Leaf+5), tr.GenBytes(405, 3*c13Leaf), tr.GenBytes(404, 9),
+	}
+	c.w.Count("directed=few-workers")
+	for r := 0; r < 3; r++ {
+		if err := h.up(0, r, []int{r, 4 - r}); err != nil {
+			return err
+		}
+	}
+	h.index(c13IndexSpec{n: 3, ctxs: []int{0}, crash: -1, parallel: parallel})
+	h.purge(c13PurgeSpec{page: 1024, flist: -1})
+	h.downloads()
+	return nil
+}
+
 // c13Directed builds a one-context, one-repo history with a fixed content pool: pool[0] has 3
 // leaves, pool[1] one leaf, pool[2] two leaves, pool[3] is empty, pool[4] one short leaf.
 // c13Straddle: two (or three) repositories; a ticker-driven chunk is being written while the scan of
@@ -994,6 +1023,11 @@ func c13DirectedCases(c *ctx) error {
 		}
 		if err := c13Straddle(c, kind, v); err != nil {
 			return err
+		}
+		if v < 2 {
+			if err := c13FewWorkers(c, kind, v+1); err != nil {
+				return err
+			}
 		}
 	}
 	// (4) known finding: re-upload of content whose blobs were orphaned before the index
